@@ -30,6 +30,19 @@ class Check(RuntimeCheck):
             case_prefixes = ('own.default', 'own.m2', 'rc.default.shared', 'arc.default.shared', 'ref.default', 'mut.default', 'generic.instances-distinct')
             facts_of_interest = r'$^'
         Generated().explore_into(rep, tier, seed, ir=False, merge=True)
+        # "clones share everything" also when the routes are taken at the same time: every schedule of two / three clones on other
+        # threads must end in a verdict and a multiset of answers that some sequential routing of the same calls produces
+        from ..parcheck import ParCheck, par_scenario
+        class Par(ParCheck):
+            prop = 'C18'
+            def scenarios(self, tier, seed):
+                exact = term(1, 'each', Pat(mask=255, chain=[seg('ret1', 'n2'), seg('ret2', 'n2')]))
+                ordered = term(0, 'next', Pat(mask=255, chain=[seg('ret1', 'n1'), seg('ret2', 'n2')]))
+                fams = [('r2x2', exact, [[(1, 0), (1, 0)], [(1, 0), (1, 0)]]), ('r3x1o', ordered, [[(0, 0)], [(0, 0)], [(0, 0)]])]
+                return [(n, par_scenario(n, 'strict', tree, threads, False)) for n, tree, threads in fams]
+            def caps(self, tier):
+                return (800, 40) if tier == 'quick' else (30000, 1500)
+        Par().explore_into(rep, tier, seed, merge=True)
 
     def rule(self):
         return ("relational families: each base scenario (random clause set over up to 6 methods, ordered and unordered, with a "
